@@ -5,6 +5,8 @@ CONSTANTS
 INVARIANT InvIdealRoundTrip
 INVARIANT InvRoundTripModuloKnown
 INVARIANT InvHazardsAreReal
+INVARIANT InvMultiModuloKnown
+INVARIANT InvMultiHazardReal
 INVARIANT InvCfgRoundTripModuloKnown
 INVARIANT InvCfgIdeal
 INVARIANT InvFind
